@@ -164,6 +164,11 @@ class Check:
         if extra_cov:
             cov.update(extra_cov)
         cov.setdefault('samples', self.samples or ['(no samples recorded)'])
+        if self.level == 'model_checking':
+            cov.setdefault('traces_validated_against_impl', 0)
+            cov.setdefault('states', 0); cov.setdefault('transitions', 0)
+        if self.level == 'translation_validation':
+            cov.setdefault('programs', 0); cov.setdefault('disagreements_checked', 0)
         cov['queries'] = dict(self.queries)
         cov['solver_s'] = round(self.solver_s, 3)
         cov['functions_encoded'] = sorted(self.funcs_encoded)[:400]
